@@ -7,7 +7,7 @@ From CelloV Require Import Generated RoundTrip.
 
 Definition rt_config : config :=
   {| cf_show_esc := rt_show_escapes; cf_look_esc := rt_look_escapes; cf_look_cont := rt_look_continue;
-     cf_float_look_long := rt_float_look_long; cf_int_signext := rt_scan_int_signext;
+     cf_float_look_long := rt_float_look_long; cf_int_signext := rt_scan_int_signext; cf_int_signext_narrow := rt_scan_int_signext_narrow;
      cf_lit_measure := rt_scan_lit_measures; cf_pct_measure := rt_scan_pct_measures |}.
 
 Definition rt_shape_ok : bool :=
